@@ -69,6 +69,35 @@ def confirm(src):
     return res
 
 
+def import_(pid, needs):
+    """Confirm /tmp/seed-<pid>/out/{A,B} and keep the confirmed ones as seeded/<pid>-<X>/."""
+    for x in ("A", "B"):
+        src = f"/tmp/seed-{pid}/out/{x}"
+        if not os.path.exists(os.path.join(src, "patch.diff")):
+            print(pid, x, "no patch"); continue
+        res = confirm(src)
+        print(pid, x, "confirmed" if res.get("confirmed") else "NOT CONFIRMED", json.dumps(res)[:400])
+        if not res.get("confirmed"):
+            continue
+        dst = os.path.join(HERE, "seeded", f"{pid}-{x}")
+        os.makedirs(dst, exist_ok=True)
+        for f in ("patch.diff", "demo.py", "notes.md"):
+            if os.path.exists(os.path.join(src, f)):
+                shutil.copy(os.path.join(src, f), os.path.join(dst, f))
+        meta = {"property": pid,
+                "origin": "written by an independent sub-agent that was given only the property text and a scratch worktree of /repo",
+                "needs_to_manifest": needs.get(x, "see notes.md"),
+                "confirmed_by": {
+                    "commands": ["demo.py on a scratch worktree of /repo HEAD (expect exit 0)", "git apply patch.diff",
+                                 "/venv/bin/python -m pytest -q -p no:cacheprovider (expect 290 passed)",
+                                 "demo.py with the change (expect non-zero exit)"],
+                    "demo_on_unchanged_exit": res["demo_on_unchanged"]["exit"],
+                    "suite_passed": res["suite"]["passed"],
+                    "demo_with_change_exit": res["demo_with_change"]["exit"],
+                    "demo_with_change_tail": res["demo_with_change"]["tail"][-300:]}}
+        json.dump(meta, open(os.path.join(dst, "meta.json"), "w"), indent=1)
+
+
 def run(sid, props):
     sdir = os.path.join(HERE, "seeded", sid)
     meta = json.load(open(os.path.join(sdir, "meta.json")))
@@ -132,6 +161,11 @@ if __name__ == "__main__":
         print(json.dumps(confirm(a[1]), indent=1))
     elif a and a[0] == "run":
         run(a[1], a[2:])
+    elif a and a[0] == "import":
+        needs = {}
+        for kv in a[2:]:
+            k, v = kv.split("=", 1); needs[k] = v
+        import_(a[1], needs)
     elif a and a[0] == "table":
         table()
     else:
